@@ -6,4 +6,9 @@ From Sessions Require Import Gen.SessShape Proofs.ShapePinned.
 Theorem sess_shape_pinned : sess_conditions = sess_conditions_v1.
 Proof. reflexivity. Qed.
 
+(* Start and LogIn take the per-ID lock and release it by defer; no other use. *)
+Theorem idlock_uses_pinned : idlock_uses = idlock_uses_v1.
+Proof. reflexivity. Qed.
+
 Print Assumptions sess_shape_pinned.
+Print Assumptions idlock_uses_pinned.
